@@ -53,7 +53,14 @@ SchurDrift(r) == ~S0!SameStorage(r.Kuu, S0!Kuu(r.K, r.pm))
 SchurOClauses(r) ==
     IF r.singular THEN <<>>
     ELSE << <<(IF r.type = 1 THEN "type1-exact-inverse" ELSE "type2-solves-upper-triangular-system"), r.err <= Tol>>,
-            <<"schur-operator=Kpp-Kpu*Kuu^-1*Kup", r.serr <= Tol>> >>
+            <<"schur-operator=Kpp-Kpu*Kuu^-1*Kup", r.serr <= Tol>>,
+            <<"schur-spmv(alpha,beta)=dense-formula", r.operr <= Tol>>,
+            <<"schur-residual=dense-formula", r.reserr <= Tol>> >>
+\* exact U, the pressure system solved by restarted GMRES / FGMRES / LGMRES on the matrix-free operator
+SchurKClauses(r) ==
+    IF r.exc # "" THEN << <<"krylov-pressure-solve-runs", FALSE>> >>
+    ELSE IF r.singular THEN <<>>
+    ELSE << <<(IF r.type = 1 THEN "type1-exact-inverse(krylov-p-solve)" ELSE "type2-solves-upper-triangular-system(krylov-p-solve)"), r.err <= Tol>> >>
 
 PatternClauses(r) ==
     << <<"pattern-terminates", ~r.hang /\ ~r.crash>>,
@@ -100,7 +107,8 @@ CprDevClauses(r) == << <<"weights=first-row-of-inverse-diagonal-block", r.varian
 CprOClauses(r) == IF r.singular THEN <<>> ELSE << <<"two-stage-formula(O)", r.err <= Tol>> >>
 DeflClauses(r) == << <<"deflated-solve-runs", r.exc = "">>,
                      <<"solves-original-system", r.exc = "" => r.rel12 <= 1000000>>,                 \* true residual <= 1e-6 (tol 1e-10)
-                     <<"residual-orthogonal-to-deflation-vectors", r.exc = "" => r.orth12 <= 100>> >> \* 1e-10
+                     <<"residual-orthogonal-to-deflation-vectors", r.exc = "" => r.orth12 <= 100>>,   \* 1e-10
+                     <<"re-initialised-object=fresh-object", r.exc = "" => (r.reorth12 <= Tol /\ r.redx12 <= Tol)>> >>
 
 \* multi-threaded set-up and projection (bounds 1e-9)
 DeflMtClauses(r) == << <<"deflated-setup-runs", r.exc = "">>,
@@ -115,6 +123,7 @@ ReuseClauses(r) == << <<"solve-runs", r.exc = "">>,
 Clauses(r) ==
     CASE r.k = "schur"   -> SchurClauses(r)
       [] r.k = "schurO"  -> SchurOClauses(r)
+      [] r.k = "schurK"  -> SchurKClauses(r)
       [] r.k = "pattern" -> PatternClauses(r)
       [] r.k = "cpr"     -> CprClauses(r)
       [] r.k = "cprupd"  -> CprUpdClauses(r)
